@@ -269,6 +269,7 @@ fn check<C: Pv>(c: &Case) -> Report {
         recompose: c.prog.recompose_npo,
         debug_lookups: false,
         poseidon2: None,
+        poseidon1: None,
     };
     let setup = match C::setup(&circuit, &pk, &npo) {
         Ok(s) => s,
@@ -517,6 +518,7 @@ fn check_perm<K: crate::checks::c05::Kit>(c: &PermCase) -> Report {
         recompose: c.history.recompose,
         debug_lookups: false,
         poseidon2: Some(pcfg),
+        poseidon1: None,
     };
     let setup = match <K::F as Pv>::setup(&circuit, &pk, &npo) {
         Ok(s) => s,
